@@ -16,10 +16,11 @@ def main(tier):
     ck.bounds = {'step': 'one machine cycle / one LCDC write from every (ticks, mode, ly, firstLine, enabled) state satisfying lcdInv, all other PPU/OAM/interrupt state arbitrary',
                  'induction': 'lcdInv holds after New() and is preserved by EndMachineCycle and WriteLCDC, so the per-cycle LY/mode relation holds at every cycle of every on/off schedule',
                  'bounded cross-check': 'the first 240 machine cycles after New() and after an off/on switch at a symbolic point, executed with a concrete cycle count: LY/mode equal the closed form with line 0 lasting 112 cycles',
-                 'outside': 'LY/STAT seen mid-instruction by the CPU (lcdon_timing), writes to LY'}
+                 'LY writes': 'a CPU write to FF44 may clear LY at any time (the invariant allows LY = 0); the next machine cycle must recompute it',
+                 'outside': 'LY/STAT seen mid-instruction by the CPU (lcdon_timing)'}
     ck.assumptions = ['lcdInv (proved inductive)']
     ck.stubs_used.append('PPU.renderPixel / checkOverlappingSprites -> no-op (their frame condition is an obligation of C15)')
-    ck.run([('ppu', e, {}) for e in ('VerifLcdInit', 'VerifLcdStep', 'VerifLcdSwitch')] + [('ppu', 'VerifLcdFirstLines', {'switch': s}) for s in (0, 1)], timeout_ms=600000, setup=stub_render, max_unwind=300)
+    ck.run([('ppu', e, {}) for e in ('VerifLcdInit', 'VerifLcdStep', 'VerifLcdSwitch')] + [('ppu', 'VerifLcdFirstLines', {'switch': s}) for s in (0, 1)] + [('ppu', 'VerifLcdRegWrite', {'reg': r}) for r in range(3)], timeout_ms=600000, setup=stub_render, max_unwind=300)
     ck.finish(explanation='inductive per-cycle check of PPU.EndMachineCycle/WriteLCDC: LY = t/114 and mode = documented mode of frame index t, frame length 17556, first line after switch-on 2 cycles shorter, immediate off/on behaviour')
 
 
